@@ -25,12 +25,22 @@ def inv(a):
     return S if a == O else (O if a == S else None)
 
 
+def tlay(own, ax):
+    """Order symbol of a table's axis (None when not resolved)."""
+    if own and ax in (O, S) and not own.endswith("'"):
+        return ('tbl', own, ax)
+    return None
+
+
 class V:
     __slots__ = ('k', 'ax', 'own', 'maj', 'flip', 'elts', 'c', 'el', 'node',
-                 'fresh')
+                 'fresh', 'lay', 'ref')
 
     def __init__(self, k, ax=None, own=None, maj=None, flip=False, elts=None,
-                 c=None, el=None, node=None, fresh=False):
+                 c=None, el=None, node=None, fresh=False, lay=None,
+                 ref=None):
+        self.lay = lay      # order in which the entries are laid out
+        self.ref = ref      # (positions) the order the values refer to
         self.k = k
         self.ax = ax
         self.own = own
@@ -45,7 +55,8 @@ class V:
     def key(self):
         return (self.k, self.ax, self.own, self.maj, self.flip,
                 tuple(e.key() for e in self.elts) if self.elts else None,
-                repr(self.c), self.el.key() if self.el else None)
+                repr(self.c), self.el.key() if self.el else None,
+                self.lay, self.ref)
 
     def __eq__(self, o):
         return isinstance(o, V) and self.key() == o.key()
@@ -97,7 +108,9 @@ def join(a, b):
         return V(a.k, ax=a.ax if a.ax == b.ax else None,
                  own=a.own if a.own == b.own else None,
                  maj=a.maj if a.maj == b.maj else None,
-                 flip=a.flip if a.flip == b.flip else False)
+                 flip=a.flip if a.flip == b.flip else False,
+                 lay=a.lay if a.lay == b.lay else None,
+                 ref=a.ref if a.ref == b.ref else None)
     if a.k == b.k == 'tuple' and a.elts and b.elts and \
             len(a.elts) == len(b.elts):
         return V('tuple', elts=tuple(join(x, y)
@@ -142,7 +155,8 @@ TABLE_PARAM_NAMES = {'other', 'table', 't', 'tab', 'result', 'tmp_table',
 
 def _roles():
     return {
-        'Table.sort_order': {'order': lambda P: V('ids', ax=P)},
+        'Table.sort_order': {'order': lambda P: V('ids', ax=P,
+                                                  lay=('loc', 'order'))},
         'Table.concat': {'others': lambda P: V('list',
                                                el=V('table', own=None))},
         'Table._fast_merge': {'others': lambda P: V(
@@ -169,6 +183,14 @@ def _roles():
 
 
 PARAM_ROLES = _roles()
+
+
+def _sym(l):
+    if not l:
+        return '?'
+    if l[0] == 'tbl':
+        return "%s's %s order" % (l[1], NAMEAX.get(l[2], l[2]))
+    return "`%s`" % l[-1]
 
 
 class Sink:
@@ -391,14 +413,26 @@ class AxisInterp:
             return a
         out = {}
         for k in set(a) | set(b):
-            if k in a and k in b:
+            if k.startswith('$ver:'):
+                if k in a and k in b and a[k] == b[k]:
+                    out[k] = a[k]
+                else:
+                    self._vercount[0] += 1
+                    out[k] = V('const', c=self._vercount[0])
+            elif k in a and k in b:
                 out[k] = join(a[k], b[k])
             else:
                 out[k] = a.get(k) or b.get(k)
         return out
 
+    _vercount = [0]
+
     def assign(self, target, val, env, st):
         if isinstance(target, ast.Name):
+            if val.lay == ('new',):
+                val = val.with_(lay=('loc', target.id))
+            self._vercount[0] += 1
+            env['$ver:' + target.id] = V('const', c=self._vercount[0])
             env[target.id] = val
         elif isinstance(target, (ast.Tuple, ast.List)):
             if val.k == 'tuple' and val.elts and \
@@ -527,7 +561,7 @@ class AxisInterp:
         if itv.k == 'per':
             return V('scalar'), itv.ax
         if itv.k == 'pos':
-            return V('pos1', ax=itv.ax), itv.ax
+            return V('pos1', ax=itv.ax, ref=itv.ref), itv.ax
         if itv.k == 'zip' and itv.elts:
             els = []
             ax = None
@@ -538,11 +572,13 @@ class AxisInterp:
             return V('tuple', elts=tuple(els)), ax
         if itv.k == 'enum' and itv.el is not None:
             el, a = self.element_of(itv.el, None, env)
-            return V('tuple', elts=(V('pos1', ax=a), el)), a
+            return V('tuple', elts=(V('pos1', ax=a, ref=itv.el.lay),
+                                    el)), a
         if itv.k == 'order':
             # list of (id, position) pairs or dict id -> position
             return V('tuple', elts=(V('id', ax=itv.ax),
-                                    V('pos1', ax=itv.ax))), itv.ax
+                                    V('pos1', ax=itv.ax,
+                                      ref=itv.lay))), itv.ax
         if itv.k == 'index':
             return V('id', ax=itv.ax, own=itv.own), itv.ax
         if itv.k == 'md1':
@@ -675,13 +711,17 @@ class AxisInterp:
             self.loop_axis.append(ax)
             elv = self.ev(e.elt, env2)
             self.loop_axis.pop()
+            lay = None
+            if len(e.generators) == 1 and not e.generators[0].ifs:
+                src = self.ev(e.generators[0].iter, env)
+                lay = src.lay if src.k != 'matrix' else None
             if elv.k == 'id':
-                return V('ids', ax=elv.ax, own=elv.own)
+                return V('ids', ax=elv.ax, own=elv.own, lay=lay)
             if elv.k == 'md1':
-                return V('md', ax=elv.ax, own=elv.own)
+                return V('md', ax=elv.ax, own=elv.own, lay=lay)
             if elv.k == 'pos1':
-                return V('pos', ax=elv.ax)
-            return V('list', el=elv, ax=ax)
+                return V('pos', ax=elv.ax, lay=lay, ref=elv.ref)
+            return V('list', el=elv, ax=ax, lay=lay)
         if isinstance(e, ast.DictComp) and len(e.generators) == 1:
             it = e.generators[0].iter
             if isinstance(it, ast.Call) and isinstance(
@@ -698,7 +738,7 @@ class AxisInterp:
             k = self.ev(e.key, env2)
             v = self.ev(e.value, env2)
             if k.k == 'id' and v.k == 'pos1':
-                return V('index', ax=k.ax, own=None)
+                return V('index', ax=k.ax, own=None, lay=v.ref)
             if k.k == 'id':
                 return V('dict', ax=k.ax, el=v)
             return V('dict', el=v)
@@ -835,15 +875,18 @@ class AxisInterp:
     def attribute(self, e, env):
         base = self.ev(e.value, env)
         attr = e.attr
+        if base.k == 'table' and base.own is None:
+            base = base.with_(own=self.named_owner(base, e.value, env))
         if base.k == 'table':
             if attr in self.FIELDS:
                 kind, ax = self.FIELDS[attr]
-                return V(kind, ax=ax, own=base.own)
+                return V(kind, ax=ax, own=base.own, lay=tlay(base.own, ax))
             if attr in ('_data', 'matrix_data'):
                 key = (dotted(e.value) or '') + '._data'
                 if key in env and env[key].k == 'matrix':
                     return env[key].with_(own=base.own)
-                return V('matrix', own=base.own)
+                return V('matrix', own=base.own,
+                         lay=(tlay(base.own, O), tlay(base.own, S)))
             if attr == 'shape':
                 return V('tuple', elts=(V('len', ax=O, own=base.own),
                                         V('len', ax=S, own=base.own)),
@@ -907,6 +950,20 @@ class AxisInterp:
             if isinstance(sl, ast.Slice):
                 return base
             idx = self.ev(sl, env)
+            if idx.k == 'pos' and base.lay and idx.ref and \
+                    base.lay != idx.ref:
+                self.sink('ORDER', e, 'gather:%s' % base.k, 'bad',
+                          '%s laid out in order %s is gathered with '
+                          'positions that refer to order %s'
+                          % (base.k, _sym(base.lay), _sym(idx.ref)))
+            elif idx.k == 'pos' and base.lay and idx.ref:
+                self.sink('ORDER', e, 'gather:%s' % base.k, 'ok',
+                          'positions refer to the order the collection is '
+                          'laid out in')
+            if idx.k == 'pos':
+                base = base.with_(lay=idx.lay, fresh=True)
+            elif idx.k in ('per', 'bool', 'list'):
+                base = base.with_(lay=None, fresh=True)
             if idx.k in ('per', 'pos', 'bool', 'list'):
                 # mask / fancy selection keeps the collection kind
                 if idx.k in ('per', 'pos') and idx.ax and base.ax and \
@@ -922,6 +979,12 @@ class AxisInterp:
             elk = {'ids': 'id', 'md': 'md1', 'pos': 'pos1'}.get(base.k)
             if idx.k in ('top', 'cmethod', 'raw'):
                 return base
+            if idx.k == 'pos1' and base.lay and idx.ref:
+                self.sink('ORDER', e, 'element:%s' % base.k,
+                          'ok' if base.lay == idx.ref else 'bad',
+                          '%s laid out in order %s is indexed with a '
+                          'position in order %s'
+                          % (base.k, _sym(base.lay), _sym(idx.ref)))
             if idx.k == 'pos1' and idx.ax and base.ax:
                 if idx.ax != base.ax:
                     self.sink('OWNER', e, 'element:%s' % base.k, 'bad',
@@ -962,7 +1025,7 @@ class AxisInterp:
                           'ok' if idx.ax == base.ax else 'bad',
                           'id of the %s axis looked up in the %s index'
                           % (NAMEAX[idx.ax], NAMEAX[base.ax]))
-            return V('pos1', ax=base.ax, own=base.own)
+            return V('pos1', ax=base.ax, own=base.own, ref=base.lay)
         if base.k == 'matrix':
             return self.matrix_subscript(e, base, env)
         if base.k == 'md1' and isinstance(e.ctx, ast.Load):
@@ -1063,6 +1126,22 @@ class AxisInterp:
                 pos_ax = rows_ax
             else:
                 return V('scalar')
+            mlay = base.lay if isinstance(base.lay, tuple) and \
+                len(base.lay) == 2 else (None, None)
+            dim = 0 if pos_ax == rows_ax else 1
+            if base.flip:
+                mlay = (mlay[1], mlay[0])
+            if sel.k == 'pos' and sel.ref and mlay[dim]:
+                self.sink('ORDER', e, 'gather:matrix',
+                          'ok' if sel.ref == mlay[dim] else 'bad',
+                          'matrix laid out in order %s along that dimension '
+                          'is gathered with positions in order %s'
+                          % (_sym(mlay[dim]), _sym(sel.ref)))
+            newlay = list(mlay)
+            newlay[dim] = sel.lay if sel.k == 'pos' else None
+            if base.flip:
+                newlay = [newlay[1], newlay[0]]
+            self._last_mlay = tuple(newlay)
             if sel.k in ('pos', 'pos1', 'per') and sel.ax:
                 self.sink('MATOP', e, 'matrix-subscript',
                           'ok' if sel.ax == pos_ax else 'bad',
@@ -1072,7 +1151,8 @@ class AxisInterp:
             else:
                 self.sink('MATOP', e, 'matrix-subscript', 'unknown',
                           'selector axis unresolved')
-            return V('matrix', own=None, flip=base.flip, fresh=True)
+            return V('matrix', own=None, flip=base.flip, fresh=True,
+                     lay=self._last_mlay)
         return V('matrix', own=None, flip=base.flip, fresh=True)
 
     # ---- calls --------------------------------------------------------
@@ -1097,6 +1177,8 @@ class AxisInterp:
             if v.k in ('ids', 'md', 'per', 'pos', 'list', 'order'):
                 if name == 'sorted' and v.k == 'order':
                     return v
+                if name in ('sorted', 'set', 'frozenset', 'reversed'):
+                    return v.with_(fresh=True, lay=('new',))
                 if name == 'set' and v.k == 'ids':
                     return v
                 return v.with_(fresh=True)
@@ -1115,7 +1197,8 @@ class AxisInterp:
                 return v0
         if name == 'index_list' and e.args:
             v = self.ev(e.args[0], env)
-            return V('index', ax=v.ax if v.k == 'ids' else None, own=v.own)
+            return V('index', ax=v.ax if v.k == 'ids' else None, own=v.own,
+                     lay=v.lay)
         if name == 'len' and e.args:
             v = self.ev(e.args[0], env)
             if v.k in ('ids', 'md', 'per', 'list', 'pos', 'index') and v.ax:
@@ -1365,14 +1448,23 @@ class AxisInterp:
                       'ids of the %s axis used with axis=%s'
                       % (NAMEAX[idv.el.ax], NAMEAX[ax]))
 
+    def named_owner(self, recv, node, env):
+        if recv.own:
+            return recv.own
+        if isinstance(node, ast.Name):
+            v = env.get('$ver:' + node.id)
+            return '%s#%s' % (node.id, v.c if v is not None else 0)
+        return None
+
     def table_method(self, e, recv, meth, env):
-        own = recv.own
+        own = self.named_owner(recv, e.func.value, env)
         args = e.args
         if meth == 'ids':
             ax, an = self.axis_arg(e, meth, env, 0)
             sym = ('sym', an.id) if ax not in (O, S) and isinstance(
                 an, ast.Name) else None
-            return V('ids', ax=ax if ax in (O, S) else None, own=own, c=sym)
+            return V('ids', ax=ax if ax in (O, S) else None, own=own, c=sym,
+                     lay=tlay(own, ax))
         if meth == 'metadata':
             ax, _ = self.axis_arg(e, meth, env, 1)
             idn = kwarg(e, 'id') or (args[0] if args else None)
@@ -1381,19 +1473,23 @@ class AxisInterp:
                 idv = self.ev(idn, env)
                 self.id_check(e, idv, ax, 'metadata(id, axis)')
                 return V('md1', ax=ax if ax in (O, S) else None, own=own)
-            return V('md', ax=ax if ax in (O, S) else None, own=own)
+            return V('md', ax=ax if ax in (O, S) else None, own=own,
+                     lay=tlay(own, ax))
         if meth == '_index':
             ax, _ = self.axis_arg(e, meth, env, 0)
-            return V('index', ax=ax if ax in (O, S) else None, own=own)
+            return V('index', ax=ax if ax in (O, S) else None, own=own,
+                     lay=tlay(own, ax))
         if meth in ('index', 'exists', 'data'):
             ax, _ = self.axis_arg(e, meth, env, 1)
             idv = self.ev(args[0], env) if args else None
             self.id_check(e, idv, ax, '%s(id, axis)' % meth)
             if meth == 'index':
-                return V('pos1', ax=ax if ax in (O, S) else None, own=own)
+                return V('pos1', ax=ax if ax in (O, S) else None, own=own,
+                         ref=tlay(own, ax))
             if meth == 'exists':
                 return V('bool')
-            return V('per', ax=inv(ax) if ax in (O, S) else None, own=own)
+            return V('per', ax=inv(ax) if ax in (O, S) else None, own=own,
+                     lay=tlay(own, inv(ax) if ax in (O, S) else None))
         if meth == 'length':
             ax, _ = self.axis_arg(e, meth, env, 0)
             return V('len', ax=ax if ax in (O, S) else None, own=own)
@@ -1482,8 +1578,9 @@ class AxisInterp:
                           'ok' if a.ax == b.ax else 'bad',
                           'id orders of the %s and %s axes are combined'
                           % (NAMEAX[a.ax], NAMEAX[b.ax]))
-                return V('order', ax=a.ax if a.ax == b.ax else None)
-            return V('order')
+                return V('order', ax=a.ax if a.ax == b.ax else None,
+                         lay=('new',))
+            return V('order', lay=('new',))
         if meth == '_conv_to_self_type':
             return self.conv_to_self_type(e, env)
         if meth == '_to_dense' and args:
@@ -1621,7 +1718,7 @@ class AxisInterp:
                     'reshape', 'squeeze'):
             return recv.with_(fresh=True)
         if meth in ('items',) and recv.k in ('order', 'index'):
-            return V('order', ax=recv.ax)
+            return V('order', ax=recv.ax, lay=recv.lay)
         if meth == 'items' and recv.k == 'dict':
             return V('iter', el=V('tuple', elts=(
                 V('id', ax=recv.ax) if recv.ax else TOP, recv.el or TOP)),
@@ -1632,7 +1729,7 @@ class AxisInterp:
                           'ok' if args[0].ax == recv.ax else 'bad',
                           'id of the %s axis looked up in the %s index'
                           % (NAMEAX[args[0].ax], NAMEAX[recv.ax]))
-            return V('pos1', ax=recv.ax, own=recv.own)
+            return V('pos1', ax=recv.ax, own=recv.own, ref=recv.lay)
         if meth in ('all', 'any', 'sum', 'min', 'max', 'size'):
             return V('scalar')
         if meth in ('keys',) and recv.k in ('index', 'order', 'dict'):
@@ -1724,6 +1821,27 @@ class AxisInterp:
                           'slot%s' % (NAMEAX[vax], unparse(node, 50), slot,
                                       ' of a transposed matrix'
                                       if flipped else ''))
+        if data.k == 'matrix' and isinstance(data.lay, tuple) and \
+                len(data.lay) == 2:
+            ml = (data.lay[1], data.lay[0]) if flipped else data.lay
+            for slot, d in (('observation_ids', 0), ('sample_ids', 1)):
+                if slot in bound:
+                    v = bound[slot][1]
+                    if v.lay and ml[d]:
+                        self.sink('ORDER', e, 'label-order:%s' % slot,
+                                  'ok' if v.lay == ml[d] else 'bad',
+                                  'ids in order %s label a matrix laid out '
+                                  'in order %s' % (_sym(v.lay),
+                                                   _sym(ml[d])))
+        for idslot, mdslot in (('observation_ids', 'observation_metadata'),
+                               ('sample_ids', 'sample_metadata')):
+            if idslot in bound and mdslot in bound:
+                a, b = bound[idslot][1], bound[mdslot][1]
+                if a.lay and b.lay and b.k in ('md', 'list'):
+                    self.sink('ORDER', e, 'metadata-order:%s' % mdslot,
+                              'ok' if a.lay == b.lay else 'bad',
+                              'metadata laid out in order %s accompanies '
+                              'ids in order %s' % (_sym(b.lay), _sym(a.lay)))
         for islot, idslot in (('observation_index', 'observation_ids'),
                               ('sample_index', 'sample_ids')):
             if islot in bound and idslot in bound:
